@@ -37,6 +37,57 @@ def mon_setup(tr, sc):
     return out
 
 
+def mon_connack(tr, sc):
+    """nothing is written after the CONNECT, and the read routine does not go on, unless the broker's reply was a valid
+    accepting CONNACK (type 2, length 2, return code 0, flags 0 - or 1 when no clean session was requested)"""
+    out = []
+    plans = []           # replies of the queued dial plans (None: dial fails, b"block": dial blocks)
+    conn_reply = {}      # connection number -> reply bytes given with its dial plan
+    nconn = 0
+    clean_req = {}
+    beyond = set()
+    for i, (op, lines) in enumerate(tr):
+        f = op.split()
+        if f and f[0] == "dial":
+            plans.append(SC.unhex(f[2]) if f[1] == "ok" and len(f) > 2 else (b"block" if f[1] == "block" else None))
+        if f and f[0] == "brk":
+            plans = []
+        if f and f[0] in ("adopt", "init"):
+            pass
+        cur = None
+        for l in lines:
+            p = l.split()
+            if l.startswith("ev dial fail"):
+                while plans and plans[0] == b"block":
+                    plans.pop(0)
+                if plans:
+                    plans.pop(0)
+            elif l.startswith("ev dial ok"):
+                while plans and plans[0] == b"block":
+                    plans.pop(0)
+                conn_reply[nconn] = plans.pop(0) if plans else bytes([0x20, 2, 0, 0])
+                cur = nconn
+                nconn += 1
+            elif l.startswith("ev w "):
+                c, raw = int(p[2]), SC.unhex(p[3])
+                if raw[:1] == b"\x10" and len(raw) > 9 and c not in clean_req:
+                    clean_req[c] = bool(raw[9] & 2)
+                    raw = raw[2 + raw[1]:] if raw[1] < 0x80 else b""
+                if raw and c in conn_reply:
+                    beyond.add(c)
+            elif l.split()[:2] in (["rs", "parked"], ["rs", "msg"], ["rs", "big"]) and cur is not None and \
+                    conn_reply.get(cur) is not None and len(conn_reply[cur]) >= 4:
+                beyond.add(cur)
+    for c in sorted(beyond):
+        rep = conn_reply.get(c)
+        if rep is None or len(rep) < 4:
+            continue         # the reply was completed by later feeds: judged by the model comparison only
+        ok = rep[0] == 0x20 and rep[1] == 2 and rep[3] == 0 and (rep[2] == 0 or (rep[2] == 1 and not clean_req.get(c, False)))
+        if not ok:
+            out.append(("setup:bad-connack-accepted", "connection %d went on after the handshake reply %s, which is not a valid accepting CONNACK" % (c, rep[:4].hex())))
+    return out
+
+
 def extra_scripts(ctx):
     """CONNACK table sweep: every flag byte x return codes, on first connect and on reconnect, clean or not"""
     r = ctx.rng
@@ -62,7 +113,7 @@ def extra_scripts(ctx):
 
 
 def run(ctx):
-    mon = lambda tr, sc: SC.mon_sanity(tr) + [h for h in SC.mon_wire(tr) if h[0] in ("wire:first-not-connect", "wire:after-disconnect")] + mon_setup(tr, sc)
+    mon = lambda tr, sc: SC.mon_sanity(tr) + [h for h in SC.mon_wire(tr) if h[0] in ("wire:first-not-connect", "wire:after-disconnect")] + mon_setup(tr, sc) + mon_connack(tr, sc)
     v, stats, hist, samples, nd = SC.run_property(ctx, MODULE, PROFILE, 200, 3000, [mon], keep, length=(8, 28), extra=extra_scripts(ctx))
     return SC.finish(ctx, v, stats, hist, samples, nd,
                      "connect histories: failures at dial, at any byte of CONNECT (write policies) or CONNACK (short replies with EOF/expiry/"
